@@ -433,6 +433,11 @@ func (s *TranslateFile) monitorPrimaryStoreEvents() {
 func (s *TranslateFile) replicate(ctx context.Context) error {
 	off := s.size()
 
+	// Closed when this replication is dropped because a primary was
+	// (re)assigned. The field is only replaced after the goroutine running
+	// this function has returned.
+	closing := s.replicationClosing
+
 	// Connect to remote primary.
 	s.logger.Debugf("pilosa: replicating from offset %d", off)
 	rc, err := s.PrimaryTranslateStore.Reader(ctx, off)
@@ -467,16 +472,25 @@ func (s *TranslateFile) replicate(ctx context.Context) error {
 			verifTranslateReplGate(s)
 			s.mu.Lock()
 			defer s.mu.Unlock()
+			// The replication this entry was read for may have been dropped
+			// while we waited for the lock. The next one starts at the
+			// current end of the log and reads the entry again, so it must
+			// not be appended here as well.
+			select {
+			case <-closing:
+				chErr <- nil
+				return
+			default:
+			}
 			// Write to local store.
-			err = s.appendEntry(&entry)
-			chErr <- err
+			chErr <- s.appendEntry(&entry)
 		}()
 		select {
 		case err = <-chErr:
 			if err != nil {
 				return err
 			}
-		case <-s.replicationClosing:
+		case <-closing:
 			return nil
 		case <-ctx.Done():
 			return nil
